@@ -661,15 +661,15 @@ theorem gw_own_cluster_oracle (env env' : Env) (s : State) (r : Request)
 /-- **no leak, whatever the way out**: after ONE COMPLETE request — forwarded, refused by any filter, unmatched, rate
     limited, left without endpoint, refused by the transport — the limiters are again related to a bookkeeping that has, for
     EVERY cluster and schema, exactly the in-flight requests it had before. So the demand of C05's judge for the next request
-    (`Spec.LocalLimiter.demand`: admitted iff fewer than M unfinished) is what it was: a request costs a slot only while it
+    (`Spec.LocalLimiter.demandExact`: admitted iff fewer than M unfinished) is what it was: a request costs a slot only while it
     is in flight. -/
 theorem gw_no_leak (env : Env) (s : State) (σ : KG.Spec.LocalLimiter.SState) (r : Request)
     (hrel : KG.Lemmas.LocalLimiter.Rel s.lim σ) :
     ∃ σ', KG.Lemmas.LocalLimiter.Rel (serveRequest env s r).1.lim σ' ∧ σ'.entries = σ.entries ∧
-      ∀ c n, KG.Spec.LocalLimiter.demand σ' c n = KG.Spec.LocalLimiter.demand σ c n := by
+      ∀ c n, KG.Spec.LocalLimiter.demandExact σ' c n = KG.Spec.LocalLimiter.demandExact σ c n := by
   have hdem : ∀ σ' : KG.Spec.LocalLimiter.SState, σ'.entries = σ.entries →
-      ∀ c n, KG.Spec.LocalLimiter.demand σ' c n = KG.Spec.LocalLimiter.demand σ c n := by
-    intro σ' he c n; unfold KG.Spec.LocalLimiter.demand; rw [he]
+      ∀ c n, KG.Spec.LocalLimiter.demandExact σ' c n = KG.Spec.LocalLimiter.demandExact σ c n := by
+    intro σ' he c n; unfold KG.Spec.LocalLimiter.demandExact; rw [he]
   rcases serveRequest_state env s r with h | ⟨x, hx, ⟨h, ha⟩ | ⟨h, ha⟩⟩
   · rw [h]; exact ⟨σ, hrel, rfl, fun _ _ => rfl⟩
   · -- refused: nothing was taken
